@@ -211,6 +211,12 @@ func makeInput(sig string, b BatchSpec) any {
 	}
 	g := &Gen{R: rand.New(rand.NewSource(b.Seed)), Guarded: b.Guarded, Twins: b.Twins, Rich: b.Rich,
 		MaxRes: b.MaxRes, MaxScope: b.MaxScope, MaxItems: b.MaxItems}
+	if b.Gen == "uniform" {
+		g.Uniform = b.N
+		if g.Uniform <= 0 {
+			g.Uniform = 1
+		}
+	}
 	switch sig {
 	case "logs":
 		return g.Logs()
